@@ -84,8 +84,10 @@ func newAlphabetList(fsChain, mainnet keys.PublicKeys) (keys.PublicKeys, error) 
 }
 
 // updateInnerRing function removes `before` keys from `innerRing` and adds
-// `after` keys in the list. If the length of `before` and `after` is not the same,
-// the function returns errNotEqualLen.
+// `after` keys in the list. Inner ring keys that are not in `before` are kept
+// unless they are in `after` already, so that a key is never listed twice.
+// If the length of `before` and `after` is not the same, the function returns
+// errNotEqualLen.
 func updateInnerRing(innerRing, before, after keys.PublicKeys) (keys.PublicKeys, error) {
 	lnBefore := len(before)
 	if lnBefore != len(after) {
@@ -103,7 +105,12 @@ loop:
 				continue loop
 			}
 		}
-		result = append(result, innerRing[i])
+
+		// A non-alphabet inner ring key that has become an alphabet one
+		// is added in place of a replaced key, do not list it twice.
+		if !after.Contains(innerRing[i]) {
+			result = append(result, innerRing[i])
+		}
 	}
 
 	return result, nil
